@@ -412,6 +412,9 @@ let () =
                  tally "fault" true;
                  let mres = res_string ~kind ~dbg o in
                  chk "res" (mres = post.res);
+                 (* classification only: which variant, and for error variants every payload figure and the returned pair *)
+                 let cls r = if String.length r >= 7 && String.sub r 0 7 = "ins_ok:" then "ins_ok" else r in
+                 chk "res_class" (cls mres = cls post.res);
                  let kl (c : cache) = List.map (fun (en : entry) -> s_of_n en.ek.kid) c.ents in
                  let km = kl s' and ki = kl post.st in
                  chk "keyset" (List.sort compare km = List.sort compare ki);
